@@ -187,9 +187,9 @@ type item struct {
 func Cancellation(d *fw.Driver, res *fw.Result, seed int64, thorough bool) error {
 	r := fw.Rng(seed, "c06")
 	instants := []string{"before-send", "after-send", "racing-response", "sub-established"}
-	rounds := 10
+	rounds := 24
 	if thorough {
-		rounds = 80
+		rounds = 120
 	}
 	base := 700000
 	for round := 0; round < rounds && !res.Enough(); round++ {
